@@ -105,6 +105,8 @@ def show(t) -> str:
         return "(" + f" {op} ".join(show(x) for x in a) + ")"
     if op == "ite":
         return f"({show(a[1])} if {show(a[0])} else {show(a[2])})"
+    if op == "occ":
+        return f"{show(a[0])}#{a[1]}"
     if op == "elem":
         return f"{show(a[0])}<{a[1]}>"
     if op == "fstr":
@@ -520,3 +522,8 @@ def args_of(c):
     d = {i: v for i, v in enumerate(p)}
     d.update(dict(kw))
     return d
+
+
+def strip_occ(t):
+    """Removes the call-event tags ``T("occ", term, k)``."""
+    return rebuild(t, lambda x: x.args[0] if x.op == "occ" else x)
